@@ -300,7 +300,8 @@ def check_outcome(I, world, outcome, name, with_graph=False):
             if mo is None:
                 eng.check(f"{name}#ensures.value_altered_only_by_a_modifying_specifier_that_may_modify_it", z3.Implies(cond, z3.BoolVal(base is actual)))
             else:
-                altered = base is not actual and actual.origin[0] is mo
+                # the modifier produced the final value FROM the value given by the property's specifier (so it ran after it)
+                altered = base is not actual and actual.origin[0] is mo and any(snap.get(p) is base for snap in mo.calls)
                 eng.check(f"{name}#ensures.modifying_specifier_alters_the_already_specified_value", z3.Implies(cond, z3.BoolVal(altered)))
     # --- evaluation discipline -------------------------------------------------------------------
     final = {p: props.get(p) for p in props.keys}
@@ -311,11 +312,6 @@ def check_outcome(I, world, outcome, name, with_graph=False):
         for snap in sm.calls:
             for d in sm.deps:
                 eng.check(f"{name}#ensures.dependencies_final_when_a_specifier_is_evaluated", d in snap and snap[d] is final.get(d), detail=f"{sm.name} needs {d}")
-            if sm.modifying:
-                for p in sm.prios:
-                    if p in snap:
-                        # it modifies: the value it sees is the one given by the property's specifier
-                        eng.check(f"{name}#ensures.modifier_evaluated_after_the_specifier_of_the_modified_property", final.get(p) is not None and final[p].base is snap[p])
     # unused defaults are not evaluated, used ones are
     for p, sm in world.defaults.items():
         used = final.get(p) is not None and getattr(final[p], "origin", (None,))[0] is sm
@@ -429,6 +425,7 @@ def register_priorities(reg):
                     params=dict(cls=C.Const(None), specifiers=C.Const(None)),
                     setup=setup_priorities(perm, n, withm, fin),
                     post=post_priorities(f"{SHORT}[{tag}]"),
+                    raises=[C.Raises("SpecifierError", mode="may")],
                     inline=INLINE_RESOLVE,
                     bounded=True,
                     note=f"bounded: {tag} over properties p, q (+ defaults p, q, d{', final f' if fin else ''}); priorities symbolic integers; every subset of properties per specifier; input order {ptag}",
@@ -437,6 +434,342 @@ def register_priorities(reg):
                 ),
                 key=key,
             )
+
+
+# =================================================================================================
+# (1b) Constructible._resolveSpecifiers -- dependency worlds (concrete priorities, enumerated dependency sets)
+# =================================================================================================
+
+# name -> (priorities, modifying, modifiable, candidate dependencies); every subset of the candidates is tried
+DEP_WORLD = {
+    "a": ({"p": 1}, False, (), ("q", "d")),
+    "b": ({"q": 1}, False, (), ("r", "p")),
+    "c": ({"r": 1, "p": 2}, False, (), ("q", "z")),  # its claim on p is overridden by a; z has no provider at all
+    "m": ({"p": 1}, True, ("p",), ("q", "r")),  # same priority as a: modifies p
+}
+DEP_DEFAULTS = {"p": (), "q": (), "r": (), "d": ("p", "r")}  # candidate `self.` dependencies of the class defaults
+
+
+def _subset(eng, cands, label):
+    k = eng.choose(2 ** len(cands), label)
+    return tuple(c for i, c in enumerate(cands) if (k >> i) & 1)
+
+
+def setup_dependencies(perm):
+    def setup(I, env):
+        eng = I.eng
+        w = World()
+        for n, (prios, mod, modifiable, cands) in DEP_WORLD.items():
+            w.specs.append(SpecModel(n, prios, deps=_subset(eng, cands, f"dependencies of {n}"), modifying=mod, modifiable=modifiable))
+        for p, cands in DEP_DEFAULTS.items():
+            w.defaults[p] = SpecModel(f"default.{p}", {p: -1}, deps=_subset(eng, cands, f"dependencies of default {p}"), default_for=p)
+        names = [s.name for s in w.specs]
+        w.order = tuple(names[i] for i in perm)
+        objs = {s.name: build_spec(w, s) for s in w.specs}
+        env.vars["cls"] = build_class(w)
+        env.vars["specifiers"] = tuple(objs[n] for n in w.order)
+        env.vars["_world"] = w
+        eng.input_syms.append(("world", world_type(w), w))
+
+    return setup
+
+
+def register_dependencies(reg):
+    tag = "dependency graphs"
+    for perm in itertools.permutations(range(len(DEP_WORLD))):
+        ptag = "".join(map(str, perm))
+
+        def post(I, env, outcome):
+            check_outcome(I, env.vars["_world"], outcome, f"{SHORT}[{tag}]", with_graph=True)
+
+        reg.add(
+            C.Contract(
+                RESOLVE,
+                params=dict(cls=C.Const(None), specifiers=C.Const(None)),
+                setup=setup_dependencies(perm),
+                post=post,
+                raises=[C.Raises("SpecifierError", mode="may")],
+                inline=INLINE_RESOLVE,
+                bounded=True,
+                note=f"bounded: specifiers a, b, c and modifying m with fixed priorities, properties p q r d (+ unprovided z); every subset of the candidate dependencies {dict((n, v[3]) for n, v in DEP_WORLD.items())} and of the default of d {DEP_DEFAULTS['d']}; input order {ptag}",
+                replay=replay_resolve,
+                properties=("C06",),
+            ),
+            key=f"{RESOLVE}[{tag}; order {ptag}]",
+        )
+
+
+# =================================================================================================
+# (1c) relational: the body is run on two orders of the same specifiers in ONE path and the outcomes compared
+# =================================================================================================
+
+
+def register_relational(reg):
+    from pyvc import extract
+    from pyvc.interp import ClassVal, FuncVal
+
+    tag = "3 specifiers; two orders in one path"
+    name = f"{SHORT}[{tag}]"
+    holder = {}
+
+    def describe(outcome):
+        """order-independent description of an outcome: error class, or {property: (specifier name, modifier name)}"""
+        if outcome[0] == "raise":
+            return ("raise", exc_name(outcome[1]))
+        props = outcome[1][0]
+        d = {}
+        for p in props.keys:
+            v = props.get(p)
+            base = v.base if getattr(v, "base", None) is not None else v
+            d[p] = (base.origin[0].name, v.origin[0].name if base is not v else None)
+        return ("return", d)
+
+    def post(I, env, outcome):
+        eng = I.eng
+        w1 = env.vars["_world"]
+        first = describe(outcome)
+        others = [pm for pm in itertools.permutations(range(len(w1.specs))) if pm != tuple(range(len(w1.specs)))]
+        perm = others[eng.choose(len(others), "second order")]
+        # same specifiers (same symbolic priorities), fresh heap objects, second order
+        w2 = World()
+        for sm in w1.specs:
+            w2.specs.append(SpecModel(sm.name, sm.prios, sm.deps, sm.modifying, sm.modifiable))
+        for p, sm in w1.defaults.items():
+            w2.defaults[p] = SpecModel(sm.name, sm.prios, sm.deps, default_for=p)
+        w2.finals = w1.finals
+        names = [s.name for s in w2.specs]
+        w2.order = tuple(names[i] for i in perm)
+        objs = {s.name: build_spec(w2, s) for s in w2.specs}
+        w1.second_order = w2.order
+        ex = extract.extract(RESOLVE)
+        f = FuncVal(ex.node, ex.module, None, RESOLVE, ClassVal.get(ex.module.name, ex.owner_class))
+        try:
+            second = ("return", I.run_function(f, [build_class(w2), tuple(objs[n] for n in w2.order)], {}, holder["contract"]))
+        except SymRaise as sr:
+            second = ("raise", sr.exc)
+        second = describe(second)
+        eng.check(f"{name}#relational.same_kind_of_outcome_for_both_orders", first[0] == second[0] and (first[0] == "return" or first[1] == second[1]), detail=f"{w1.order}: {first[0]}, {w2.order}: {second[0]}")
+        if first[0] == second[0] == "return":
+            eng.check(f"{name}#relational.same_property_values_for_both_orders", first[1] == second[1])
+
+    def conc_world(w):
+        def conc(eng, model, val):
+            out = world_type(w).conc(eng, model, val)
+            out["second_order"] = list(getattr(w, "second_order", ()))
+            return out
+
+        return conc
+
+    def setup(I, env):
+        setup_priorities(tuple(range(3)), 3, False, False)(I, env)
+        w = env.vars["_world"]
+        I.eng.input_syms[-1] = ("world", C.Ghost(lambda eng, name, I: w, conc_world(w)), w)
+
+    c = C.Contract(
+        RESOLVE,
+        params=dict(cls=C.Const(None), specifiers=C.Const(None)),
+        setup=setup,
+        post=post,
+        raises=[C.Raises("SpecifierError", mode="may")],
+        inline=INLINE_RESOLVE,
+        bounded=True,
+        note="bounded: 3 non-modifying specifiers over p, q with symbolic priorities; first order s0 s1 s2, second order any other permutation",
+        replay=replay_resolve,
+        properties=("C06",),
+    )
+    holder["contract"] = c
+    reg.add(c, key=f"{RESOLVE}[{tag}]")
+
+
+# =================================================================================================
+# (2) the nested dfs: topological order, cycles, missing providers
+# =================================================================================================
+
+DFS = f"{RESOLVE}.dfs"
+DFS_SHORT = f"{SHORT}.dfs"
+# node -> (property it specifies, candidate dependencies); n3 additionally MODIFIES p0 (specified by n0)
+DFS_NODES = {"n0": ("p0", ("p1", "p2")), "n1": ("p1", ("p2", "p3")), "n2": ("p2", ("p0", "zz")), "n3": ("p3", ("p1",))}
+
+
+DFS_MODES = ("fresh colouring", "some specifiers already finished", "some finished and an ancestor in progress")
+
+
+def register_dfs(reg):
+    for mode in range(3):
+        _register_dfs_mode(reg, mode)
+
+
+def _register_dfs_mode(reg, mode):
+    from pyvc import extract
+    from pyvc.interp import Env, FuncVal
+
+    def closure(I):
+        eng = I.eng
+        nodes = {}
+        for n, (prop, cands) in DFS_NODES.items():
+            o = PObj(repo_class(f"{SP}:ModifyingSpecifier" if n == "n3" else f"{SP}:Specifier"), tag=n)
+            o.fields.update(name=n, requiredProperties=tuple(sorted(_subset(eng, cands, f"dependencies of {n}"))), _dfs_state=0)
+            o.nname, o.prop = n, prop
+            nodes[n] = o
+        n3_modifies = eng.choose(2, "n3 modifies p0?") == 1
+        properties = PDict([(o.prop, o) for o in nodes.values()])
+        modifying = PDict([("p0", nodes["n3"])] if n3_modifies else [])
+        modifying_inv = PDict([(nodes["n3"], "p0")] if n3_modifies else [])
+        # specification-side graph
+        provider = {o.prop: o for o in nodes.values()}
+        if n3_modifies:
+            provider["p0"] = nodes["n3"]
+        edges, missing = {}, {}
+        for n, o in nodes.items():
+            edges[n] = [provider[d] for d in o.fields["requiredProperties"] if d in provider]
+            missing[n] = any(d not in provider for d in o.fields["requiredProperties"])
+            if n == "n3" and n3_modifies:
+                edges[n].append(nodes["n0"])
+        # initial colouring: a dependency-closed set of finished nodes already in `order` (+ maybe one node in progress)
+        order0 = []
+        if mode >= 1:
+            for n, o in nodes.items():
+                if n != "n0" and eng.choose(2, f"{n} already finished?") == 1:
+                    o.fields["_dfs_state"] = 2
+            fin = [o for o in nodes.values() if o.fields["_dfs_state"] == 2]
+            # only consistent states: finished nodes have all their providers finished and nothing missing
+            for o in fin:
+                if missing[o.nname] or any(t.fields["_dfs_state"] != 2 for t in edges[o.nname]):
+                    raise PathEndSignal()
+            # any topological order of the finished nodes
+            perms = [pm for pm in itertools.permutations(fin) if all(pm.index(t) < pm.index(o) for o in pm for t in edges[o.nname])]
+            if not perms:
+                raise PathEndSignal()
+            order0 = list(perms[eng.choose(len(perms), "order of the finished nodes")])
+        if mode == 2:
+            cands = [o for o in nodes.values() if o.fields["_dfs_state"] == 0 and o.nname != "n0"]
+            if not cands:
+                raise PathEndSignal()
+            cands[eng.choose(len(cands), "node in progress")].fields["_dfs_state"] = 1
+        order = PList(order0)
+        I._dfs = dict(nodes=nodes, edges=edges, missing=missing, order=order, order0=list(order0), state0={n: o.fields["_dfs_state"] for n, o in nodes.items()}, n3_modifies=n3_modifies)
+        free = dict(modifying=modifying, properties=properties, modifying_inv=modifying_inv, order=order)
+        ex = extract.extract(DFS)
+        free["dfs"] = FuncVal(ex.node, ex.module, Env(ex.module, None, free), DFS, None)  # the recursive reference
+        return free
+
+    def setup(I, env):
+        env.vars["spec"] = I._dfs["nodes"]["n0"]
+        d = I._dfs
+        desc = dict(
+            deps={n: list(o.fields["requiredProperties"]) for n, o in d["nodes"].items()}, state0=d["state0"], order0=[o.nname for o in d["order0"]], n3_modifies_p0=d["n3_modifies"]
+        )
+        I.eng.input_syms.append(("graph", C.Const(None), desc))
+
+    def post(I, env, outcome):
+        eng = I.eng
+        d = I._dfs
+        nodes, edges, missing, state0 = d["nodes"], d["edges"], d["missing"], d["state0"]
+        # what the call has to do, from the specification: everything reachable from n0 through unfinished nodes
+        reach, bad = [], [False]
+        stack = set()
+
+        def visit(o):
+            if state0[o.nname] == 2 or o in reach and o.nname not in stack:
+                return
+            if state0[o.nname] == 1 or o.nname in stack:
+                bad[0] = True
+                return
+            stack.add(o.nname)
+            if missing[o.nname]:
+                bad[0] = True
+            for t in edges[o.nname]:
+                visit(t)
+            stack.discard(o.nname)
+            if o not in reach:
+                reach.append(o)
+
+        visit(nodes["n0"])
+        if outcome[0] == "raise":
+            eng.check(f"{DFS_SHORT}#raises.only_SpecifierError", exc_name(outcome[1]) == "SpecifierError")
+            eng.check(f"{DFS_SHORT}#raises.SpecifierError.only_if_cycle_or_missing_provider", bad[0])
+            return
+        eng.check(f"{DFS_SHORT}#raises.SpecifierError.must.on_cycle_or_missing_provider", not bad[0])
+        order = list(d["order"].items)
+        n0 = len(d["order0"])
+        eng.check(f"{DFS_SHORT}#ensures.order_only_extended", all(a is b for a, b in zip(order[:n0], d["order0"])) and len(order) >= n0)
+        new = order[n0:]
+        eng.check(f"{DFS_SHORT}#ensures.appends_exactly_the_unfinished_specifiers_reachable_from_the_argument_once", len(new) == len(reach) and all(any(x is o for x in new) for o in reach))
+        pos = {id(o): i for i, o in enumerate(order)}
+        for o in new:
+            for t in edges[o.nname]:
+                eng.check(f"{DFS_SHORT}#ensures.providers_of_dependencies_and_specifier_of_modified_property_come_first", id(t) in pos and pos[id(t)] < pos[id(o)], detail=f"{t.nname} before {o.nname}")
+        for n, o in nodes.items():
+            want = 2 if any(o is x for x in order) else state0[n]
+            eng.check(f"{DFS_SHORT}#ensures.finished_marks_exactly_the_ordered_specifiers", o.fields.get("_dfs_state") == want)
+
+    reg.add(
+        C.Contract(
+            DFS,
+            params=dict(spec=C.Const(None)),
+            closure_env=closure,
+            setup=setup,
+            post=post,
+            raises=[C.Raises("SpecifierError", mode="may")],
+            bounded=True,
+            note=f"bounded: 4 specifiers {DFS_NODES} (n3 optionally modifies p0), every subset of the candidate dependencies; initial colouring: {DFS_MODES[mode]}",
+            replay=replay_dfs,
+            properties=("C06",),
+        ),
+        key=f"{DFS}[{DFS_MODES[mode]}]",
+    )
+
+
+from pyvc.engine import PathEnd as PathEndSignal  # noqa: E402  (inconsistent initial colourings are not inputs)
+
+
+def replay_dfs(inputs, clause):
+    """The nested dfs cannot be called from outside; the graph is replayed through the real _resolveSpecifiers
+    (fresh colouring) and the evaluation order is observed."""
+    g = inputs["graph"]
+    if any(v != 0 for v in g["state0"].values()):
+        return None
+    from scenic.core.errors import SpecifierError
+    from scenic.core.lazy_eval import DelayedArgument
+    from scenic.core.object_types import Constructible
+    from scenic.core.specifiers import ModifyingSpecifier, Specifier
+
+    cls = type("ReplayDfs", (Constructible,), {"_scenic_properties": {}})
+    log = []
+
+    def mk(n):
+        prop = DFS_NODES[n][0]
+
+        def fn(ctx, n=n):
+            log.append((n, set(k for k in ctx.__dict__ if k != "_evaluated")))
+            out = {prop: n}
+            if n == "n3" and g["n3_modifies_p0"]:
+                out["p0"] = "n3(p0)"
+            return out
+
+        val = DelayedArgument(set(g["deps"][n]), fn, _internal=True)
+        if n == "n3":
+            pr = {prop: 1}
+            if g["n3_modifies_p0"]:
+                pr["p0"] = 1
+            return ModifyingSpecifier(n, pr, val, modifiable_props={"p0"})
+        return Specifier(n, {prop: 1}, val)
+
+    try:
+        cls._resolveSpecifiers([mk(n) for n in DFS_NODES])
+    except SpecifierError as e:
+        provided = {DFS_NODES[n][0] for n in DFS_NODES}
+        missing = any(d not in provided for n in DFS_NODES for d in g["deps"][n])
+        return None if missing or "depends on itself" in str(e) else f"real code raised SpecifierError({e}) on graph {g}"
+    for n, have in log:
+        for d in g["deps"][n]:
+            if d not in have:
+                return f"real code evaluated {n} before its dependency {d} was set (graph {g})"
+    if g["n3_modifies_p0"]:
+        names = [n for n, _ in log]
+        if names.index("n3") < names.index("n0"):
+            return f"real code evaluated the modifier n3 before the specifier n0 of the modified property (graph {g})"
+    return None
 
 
 # =================================================================================================
@@ -635,3 +968,6 @@ def _scenic_demo_tie():
 def register(reg):
     install_stubs(reg)
     register_priorities(reg)
+    register_dependencies(reg)
+    register_relational(reg)
+    register_dfs(reg)
